@@ -437,6 +437,56 @@ Proof.
   apply fold_ok; [|exact HI1]. intros I p HI. now apply fill_memory_blocks_ok.
 Qed.
 
+(* the output is a string of bytes *)
+Lemma H_wf n x : wf_bytes (Argon2Spec.H n x).
+Proof.
+  unfold Argon2Spec.H, Blake2bSpec.blake2b_plain, Blake2bSpec.blake2b, Blake2bSpec.digest_bytes.
+  apply wf_firstn. generalize (Blake2bSpec.absorb (S (length ([] ++ x))) (Blake2bSpec.h0 (Z.of_nat n) (Z.of_nat (length (@nil Z))) (zeros 16) (zeros 16)) 0 ([] ++ x)) as h. intros h.
+  induction h as [|w h IH]; cbn [flat_map]; [constructor|]. apply wf_bytes_app. split; [apply le_bytes_wf|exact IH].
+Qed.
+
+Lemma Hout_wf k v last : wf_bytes v -> wf_bytes (Argon2Spec.Hout k v last).
+Proof.
+  revert v; induction k as [|k IH]; intros v Hv; cbn [Argon2Spec.Hout]; apply wf_bytes_app; split; try (now apply wf_firstn).
+  - apply H_wf.
+  - apply IH. apply H_wf.
+Qed.
+
+Lemma Hprime_wf T A : wf_bytes (Argon2Spec.Hprime T A).
+Proof. unfold Argon2Spec.Hprime. destruct (T <=? 64)%nat; [apply H_wf|]. apply Hout_wf. apply H_wf. Qed.
+
+Lemma finalize_ok_wf I outlen : mem_ok I -> (4 < outlen)%nat -> Z.of_nat outlen < 4294967295 ->
+  exists h, finalize I outlen = Ok h /\ length h = outlen /\ wf_bytes h.
+Proof.
+  intros HI Ho Hm. unfold finalize.
+  set (bh := fold_left _ _ _).
+  assert (Hbh : blk bh).
+  { subst bh. generalize (mem_at_blk I (lane_length I - 1) HI). generalize (mem_at I (lane_length I - 1)).
+    induction (seq 1 (Z.to_nat (lanes I) - 1)) as [|l ls IH]; intros b Hb; cbn [fold_left]; [exact Hb|].
+    apply IH. apply xor_block_length; [exact Hb|]. apply mem_at_blk, HI. }
+  rewrite longhash_is_Hprime by (rewrite ?store_block_length by exact Hbh; lia).
+  eexists. split; [reflexivity|]. split; [apply Hprime_length; lia|apply Hprime_wf].
+Qed.
+
+Theorem argon2_hash_accepts_wf t m pwd salt (outlen : nat) ty :
+  context_ok outlen pwd salt None None t m 1 = true -> Z.of_nat outlen < 4294967295 ->
+  exists h, argon2_hash t m 1 pwd salt None None outlen ty = Ok h /\ length h = outlen /\ wf_bytes h.
+Proof.
+  intros Hc Ho. unfold argon2_hash. change (mul32 1 SYNC_POINTS =? 0) with false. cbv iota.
+  destruct (norm_memory m 1) as [mb seg]. rewrite Hc. cbn [negb].
+  unfold context_ok in Hc. rewrite !Bool.andb_true_iff, !in_range_spec in Hc.
+  destruct Hc as (((((((Hol & Hpw) & Hsl) & _) & _) & _) & Hm) & Ht).
+  rewrite initial_hash_is_H0 by (unfold lengths_ok, opt_bytes, MAX_U32 in *; cbn [length]; lia).
+  cbn [obind].
+  set (I0 := mk_inst _ _ _ _ _ _ _ _).
+  assert (HI0 : mem_ok I0) by (unfold mem_ok; subst I0; cbn [memory]; apply repeat_Forall, zero_block_blk).
+  destruct (first_blocks_ok (seq 0 (Z.to_nat 1)) (Argon2Spec.H0 1 (w32 (Z.of_nat outlen)) m t VERSION ty pwd salt (opt_bytes None) (opt_bytes None) ++ zeros 8) I0 HI0)
+    as (I1 & E1 & HI1 & _ & _).
+  rewrite E1. cbn [obind].
+  apply finalize_ok_wf; [|unfold MIN_OUTLEN in Hol; lia|exact Ho].
+  apply fold_ok; [|exact HI1]. intros I p HI. now apply fill_memory_blocks_ok.
+Qed.
+
 Theorem argon2_hash_rejects t m pwd salt (outlen : nat) ty :
   context_ok outlen pwd salt None None t m 1 = false -> argon2_hash t m 1 pwd salt None None outlen ty = Err.
 Proof.
